@@ -254,9 +254,54 @@ def r_reallocold(prog, R):
     r.require(n >= 1, "no ares_realloc_zero growth with a capacity store found in the containers")
 
 
+def _reclaim_table(prog, r, f):
+    """the prefix ares_buf_reclaim discards is min(read position, tag) -- never unread bytes, never bytes behind a set tag: decided by interpreting the function's own
+    statements up to the memmove for every combination of a tag (none / before / at / after the read position) and a read position"""
+    import evalx
+    k = "discarded prefix <= read position and <= a set tag (decision table)"
+    mm = [(b.id, i) for b, i, c in f.calls() if c.get("callee") in ("memmove", "memcpy")]
+    pv = None
+    for b, i, c in f.calls():
+        if c.get("callee") in ("memmove", "memcpy") and len(c.get("args", [])) == 3:
+            for v in vars_in(c["args"][1]):
+                if v["n"] != f.params[0]["n"]:
+                    pv = v["n"]
+    if not r.require(mm and pv is not None, "ares_buf_reclaim: memmove and the prefix variable not found"):
+        return
+    bn = f.params[0]["n"]
+    SMAX = (1 << 64) - 1
+    locs = {v["n"] for _, _, el in f.elements() if el["k"] == "decl" for v in el["vars"]}
+    bad = None
+    n = 0
+    try:
+        for t in (SMAX, 0, 3, 5, 8):
+            for o in (0, 3, 5, 8):
+                env = {x: 0 for x in locs}
+                env.update({bn: 1, bn + "->alloc_buf": 1, bn + "->tag_offset": t, bn + "->offset": o, bn + "->data_len": 10, "ares_buf_is_const()": 0})
+                out = {}
+                res = evalx.run_cfg(f, env, stop_at=set(mm), out=out, max_steps=32)
+                n += 1
+                if res[0] == "ret":
+                    continue
+                if res[0] != "stop":
+                    raise evalx.Unknown("walk ended at an undecidable condition")
+                pfx = out.get(pv)
+                if (pfx > o or (t != SMAX and pfx > t)) and bad is None:
+                    bad = (t, o, pfx)
+    except evalx.Unknown as ex:
+        r.broke("ares_buf_reclaim not interpretable: %s" % ex)
+        return
+    if bad is None:
+        r.ok(k, f.loc(f.ln), note="%d combinations" % n)
+    else:
+        r.viol(k, f.name, f.loc(f.ln), "with the tag at %s and the read position at %d the compaction discards %d bytes: bytes that were not yet read (or that a rollback would return to) are gone" % (
+            "none" if bad[0] == SMAX else bad[0], bad[1], bad[2]))
+
+
 def r_reclaim(prog, R):
     r = R.rule("R-C19-BUFTAG", "compaction never drops bytes behind a set tag and re-bases the tag exactly when a tag is set; rollback restores the tagged offset", floor=4, analysis="exact-guard (guard_delta)")
     f = prog.func("ares_buf_reclaim")
+    _reclaim_table(prog, r, f)
     mf = MustFacts(f, track_calls=False)
     adj = [(b, i, el) for b, i, el in f.elements() if el["k"] == "asg" and is_field(el["e"]["l"], "tag_offset", "ares_buf") and el["e"]["op"] == "-="]
     other = [(b, i, el) for b, i, el in f.elements() if el["k"] == "asg" and is_field(el["e"]["l"], "tag_offset", "ares_buf") and el["e"]["op"] != "-="]
